@@ -30,11 +30,11 @@ PROPS = {
                 gen=parse_family('C02', 3000, 40000), flavours=['c', 'c-weak'],
                 rule='random grammars with random translations (permuted, partial, nil-padded, pass-through, empty); sentences <= 7 tokens; one_parse=1 cost=0; tree compared with the enumerated translations of all derivations',
                 assumptions=COMMON_ASSUME + ['enumeration capped at 3000 derivations per input and 9 tokens (depth_bound: the enumerator is complete for every accepted grammar)', 'C02 is a theorem about the step-for-step models: for every grammar readGrammar accepts and every sentence, the model of make_parse in one-parse mode, run on the parse list of the model of build_pl (levels 0/1), ends within an explicit fuel bound with a table without ALT node that denotes exactly the translation of a derivation of the input, TERM nodes carrying code and position of their tokens (accepted_makeParse_one, makeParse_one_sound, makeParse_one_total, makeParse_one_terms); the two step models are tied to the C code on every parse (identical exports)']),
-    'C03': dict(level='proof', theorem_modules=['C03', 'C02', 'MakeParse', 'MakeParseSound', 'MakeParseTotal', 'HeapWf', 'MakeParseComplete'], min_theorems=30, tags=['C03'], crash_counts=True,
+    'C03': dict(level='proof', theorem_modules=['C03', 'C02', 'MakeParse', 'MakeParseSound', 'MakeParseTotal', 'HeapWf', 'MakeParseComplete', 'ExactCost'], min_theorems=30, tags=['C03'], crash_counts=True,
                 gen=lambda seed, tier: parse_family('C03', 3000, 40000)(seed, tier) + capacity_cases(seed, ('L-amb', 'L-deep')), flavours=['c', 'c-weak'],
                 rule='as C02 with one_parse=0: set of trees denoted by the DAG vs set of translations of all derivations',
                 assumptions=COMMON_ASSUME + ['the sound half of C03 is a theorem about the step model of make_parse (makeParse_all_sound: every tree the all-parses forest denotes is the translation of a derivation of the input, for every accepted grammar and input); the all-parses run always ends with a well-formed acyclic forest (makeParse_all_total with the explicit fuel mpAllFuel, makeParse_heap_wf, makeParse_all_not_cyclic; the fuel is exponential and must be: known finding D31; polynomial when no pass-through rule derives itself: makeParse_all_total_poly); the complete half is a theorem for event-free runs (makeParse_all_complete_eventfree: reuse = 0 and origins = 0, the two counters of the mpev hook line, imply that every translation is denoted) and false otherwise (known finding D9, makeParse_forest_incomplete: the two events are exactly D9a / D9b); it is judged per run, with full force on event-free runs and with the attribution rule of known_findings.txt on runs with an event']),
-    'C04': dict(level='proof', theorem_modules=['C04', 'PruneC', 'HeapWf', 'MakeParseTotal', 'RecoveredCost'], min_theorems=30, tags=['C04'], crash_counts=True,
+    'C04': dict(level='proof', theorem_modules=['C04', 'PruneC', 'HeapWf', 'MakeParseTotal', 'RecoveredCost', 'ExactCost'], min_theorems=30, tags=['C04'], crash_counts=True,
                 gen=lambda seed, tier: parse_family('C04', 3000, 40000)(seed, tier) + capacity_cases(seed, ('L-amb', 'L-deep')), flavours=['c', 'c-weak'],
                 rule='random grammars with costs 0-5 (ties included); sentences <= 7 tokens; cost flag on, one_parse in {0,1}, parse_free given or NULL; denoted set vs argmin of total cost over all translations, every cost field vs the additive law',
                 assumptions=COMMON_ASSUME + ['prune theorems are about the Lean pruning model of a forest (Spec/Forest.lean); find_minimal_translation itself (prune_to_minimal with the sign of the cost field as visited flag and the memo table of alternative chains, traverse_pruned_translation, the freeing loop) is modelled step for step on the heap of the make_parse model (Model/PruneC.lean) and proved to denote exactly prune of the unfolded forest, to restore every cost field, and to free exactly the cells that became unreachable, each once (pruneC_denote, pruneC_minimal_all/one, pruneC_costs_restored, pruneC_frees, pruneC_memo_sound) under the heap well-formedness WfHeap, which is proved for every heap the make_parse model builds on the parse list of an accepted input (makeParse_heap_wf; acyclicity from a rank by span length and unit steps); accepted_cost_parse composes the chain for every accepted grammar and sentence: every tree of the forest is a translation, the pruned result denotes exactly the minimal-cost trees of the forest make_parse built (not of all translations: D9) with accumulated cost fields, and the freed cells are exactly those that became unreachable, each once; accepted_cost_parse_total removes the last hypothesis (the all-parses run of the make_parse model always ends: makeParse_all_total); the tie runs both models on the dumped parse list and compares the exported forest and the number of freed blocks']),
@@ -42,7 +42,7 @@ PROPS = {
                 gen=parse_family('C06', 3000, 40000, maxlen=9), flavours=['c'],
                 rule='grammars with and without error rules; non-sentences (mutated sentences, prefixes, random strings); recovery off (exact argument tuple) and on (well-formedness of every callback, strictly increasing error tokens, first error token = model)',
                 assumptions=COMMON_ASSUME + ['firstError_iff_viable / firstError2_iff_viable need every nonterminal productive (strict grammars); callback theorems hold for every accepted grammar and input from the explicit fuel recoveryFuel on (Props/RecoveryAccepted: accepted_calls_wf, accepted_first_call)']),
-    'C07': dict(level='proof', theorem_modules=['C07', 'C06', 'C02', 'RecoveredParse', 'RecoveryAccepted', 'RecoveredCost', 'RecoveredRelease'], min_theorems=12, tags=['C07'], crash_counts=True,
+    'C07': dict(level='proof', theorem_modules=['C07', 'C06', 'C02', 'RecoveredParse', 'RecoveryAccepted', 'RecoveredCost', 'RecoveredRelease', 'ExactCost'], min_theorems=12, tags=['C07'], crash_counts=True,
                 gen=lambda seed, tier: parse_family('C07', 3000, 40000, maxlen=9)(seed, tier) + [c for c in long_c09_cases(seed, 'quick') if 'farback' in c[0]], flavours=['c', 'c-weak'],
                 rule='grammars with 0..3 error rules, non-sentences <= 9 tokens, recovery_match 1..5, one/all parses, lookahead 0-2: return code, non-NULL tree, tree vs translations of the repaired input (read off the model parse list), ignored-token accounting, callbacks and final parse list vs the step-for-step recovery model',
                 assumptions=COMMON_ASSUME + ['the recovery search is proved to finish within recoveryFuel (exponential in the input length, finding D28) and recovered_parse_one / recovered_parse_all take that fuel; theorems with the hypothesis r.ok hold for any smaller fuel on which the search happened to finish', 'after a recovery the all-parses forest is sound but may be incomplete (finding D9), as without recovery']),
@@ -104,12 +104,12 @@ PROPS = {
                 gen=lambda seed, tier: gen.gen_history_cases(seed + 3, 12000 if tier == 'thorough' else 2400), flavours=['c'],
                 rule='the same histories: yaep_error_code / message after every call, return codes of yaep_parse for invalid token codes (below, between and above the declared codes), undefined grammars, NULL allocator with non-NULL free; previous values returned by all setters incl. out-of-range lookahead levels',
                 assumptions=COMMON_ASSUME),
-    'C17': dict(level='fault_enumeration', theorem_modules=['C14'], min_theorems=4, tags=['C17', 'C12', 'C15', 'C14'], crash_counts=True, runner=None,
+    'C17': dict(level='fault_enumeration', theorem_modules=['C14', 'C17'], min_theorems=4, tags=['C17', 'C12', 'C15', 'C14'], crash_counts=True, runner=None,
                 flavours=['c', 'cxx', 'c-fi'],
                 rule='scenarios (callback-defined and description-defined grammars, parse with and without error recovery, all parses with cost pruning, dynamic lookahead, a second live object): the fault-free run counts the library allocations of yaep_create_grammar / the definition / yaep_parse; then for every k (thorough: all k; quick: a strided sample incl. the first and last 10) the k-th allocation of that call fails: expected NULL resp. YAEP_NO_MEMORY with error code 1, no sanitizer report, yaep_free_grammar succeeds, the other object still parses as the model says; non-trivial = a variant in which the injected failure actually fired',
                 assumptions=['malloc/calloc/realloc/free of allocate.c are replaced by counting, failing wrappers (no source hook); operator new of the C++ containers is not injected',
                              'which blocks the longjmp unwinding leaks is not judged (leaks are reported as statistics only); partial: memory effects are runtime truth (ASan)',
-                             'Lean: Model/Api.lean + apiStep_local (other objects unaffected); the judge applies it to histories with injected failures'],
+                             'Lean: Model/ApiFault.lean (the API state machine under a single failing allocation: NULL / YAEP_NO_MEMORY, a failed definition leaves the object undefined, a failed parse changes nothing but the error code) with Props/C17.lean: fault_result, fault_local, fault_errcode, fault_define_undefined, fault_parse_keeps, fault_settings_kept, fault_then_free, fault_then_redefine, fault_bystander_run; the judge applies objStepFault to every injected failure'],
                 technique='exhaustive single-fault enumeration over allocation indices, judged by the Lean API model'),
     'C18': dict(level='exploration', theorem_modules=['C18', 'BuildSet', 'BuildSet2', 'C18Etf'], min_theorems=18, tags=['C18'], crash_counts=True, runner=None, flavours=['c'],
                 rule='left-recursive list, E/T/F arithmetic and the 200-rule ANSI C grammar of test41.c on the tokens of test/test.i (the repo lexer ansic.l), input lengths 1k..16k/32k (thorough: ..512k) doubling, lookahead 0,1,2: bytes requested from the allocator during yaep_parse, hash searches, unique situations / set cores / distance vectors / sets / triples must grow by at most a calibrated factor per doubling (bytes 2.6, searches 3.5, ...), at most 4 hash collisions per search, never more unique sets than tokens, goto-cache hits do not shrink; the same counters after make_parse in the all-parses and cost configurations; on random grammars and short inputs the numbers of unique set cores, distance vectors and sets equal those of the step-for-step Lean model of set_insert (identical sets are found again, not rebuilt); non-trivial = a (family, lookahead, n -> 2n) pair with both measurements',
